@@ -103,6 +103,17 @@ impl AnyCms {
             _ => unreachable!("merge of different counter types"),
         }
     }
+    pub fn clone_from_other(&mut self, o: &AnyCms) -> bool {
+        match (self, o) {
+            (AnyCms::U8(a), AnyCms::U8(b)) => a.clone_from(b),
+            (AnyCms::U16(a), AnyCms::U16(b)) => a.clone_from(b),
+            (AnyCms::U32(a), AnyCms::U32(b)) => a.clone_from(b),
+            (AnyCms::U64(a), AnyCms::U64(b)) => a.clone_from(b),
+            (AnyCms::Us(a), AnyCms::Us(b)) => a.clone_from(b),
+            _ => return false,
+        }
+        true
+    }
     pub fn fork(&self) -> AnyCms {
         match self {
             AnyCms::U8(c) => AnyCms::U8(c.clone()),
